@@ -244,7 +244,7 @@ def main(run):
     for i in range(0 if replay_only else 6000 if quick else 120000):
         honest = r.random() < 0.6
         maxr = r.choice([4, 4, 4, 1, 2, 7])
-        exc.append((G.exc_line(G.random_exc(r, honest, maxr), maxr=maxr,
+        exc.append((G.exc_line(["H%d" % r.choice([1, 1, 2, 3, 4, 5, 6, 7])] + G.random_exc(r, honest, maxr), maxr=maxr,
                                mid0=r.choice([100, 65530, 65534, 0, 7, 999]),
                                tok0=r.choice([0, 0, 254, 65534])),
                     "random-honest" if honest else "random-arbitrary", honest))
@@ -264,8 +264,8 @@ def main(run):
         kind = r.choice(["real", "real", "rfc"])
         nreq = r.choice([1, 2, 2, 3, 4])
         reqs = [(r.choice(G.STYLES), r.choice([1, 1, 1, 0]), r.choice([0, 0, 5, 400, 1800])) for _ in range(nreq)]
-        fates = G.random_fates(r, r.choice([4, 8, 12, 20]))
-        exe.append((G.exe_line(kind, reqs, fates, seed=r.randrange(1, 1 << 30),
+        fates = G.random_fates(r, r.choice([4, 8, 12, 20]), heavy=(r.random() < 0.25))
+        exe.append((G.exe_line(kind, reqs, fates, seed=r.randrange(1, 1 << 30), method=r.choice([1, 1, 2, 3, 4]),
                                cmid0=r.choice([100, 65533, 41527, 41528, 41529]),
                                adelay=r.choice([1, 300, 1200, 2500, 4000]),
                                dflt=r.choice([0, 3, 40, 900]), nstart=r.choice([0, 16, 16])),
